@@ -13,8 +13,16 @@
 // get the signatures float64compare-nan, cmp-<Type>-nan-field, ... Those signatures name the
 // defects of pkg.Float64Compare/Float64Equal that /repo commit 05846e0 repaired, and
 // copy-negzero-not-copied the `!=` guards of the generated setters that 59db810 replaced by
-// pkg.<T>Equal; they all stay as oracles (a regression is reported under the same name, which is
-// no longer a known finding).
+// pkg.<T>Equal; clone-loses-optional-presence and cmp-stale-optional name the two defects of
+// struct.go.tmpl that 82431a4 repaired (Clone dropped optionalFieldsPresent; Cmp<Struct> compared
+// the values stored in optional fields absent on both sides). They all stay as oracles (a
+// regression is reported under the same name, which is no longer a known finding).
+//
+// Optional fields: fill leaves an optional field present, absent with a stale stored value (Set
+// then Unset) or absent untouched; the second copy of every pool base is "restaled" (every absent
+// optional primitive gets Set(other value)+Unset: same data, different hidden state), so each pool
+// of a type that reaches an optional field holds IsEqual pairs with different stored values; the
+// optional section builds such pairs for every presence pattern directly.
 package main
 
 import (
@@ -236,6 +244,10 @@ func (pc *poolCtx) mk(i int) (p reflect.Value, pristine bool) {
 	p = newObj(pc.t)
 	fill(p, pc.t, r, pc.cfg, 0)
 	pristine = true
+	if variant == 1 && pc.t.reachOpt {
+		// same data as variant 0, other values stored in the absent optional fields
+		stats["restaled-fields"] += restale(p, pc.t, rng.New(pc.seed*15485863+uint64(i)), pc.cfg)
+	}
 	if variant >= 2 {
 		mr := rng.New(pc.seed*104729 + uint64(i))
 		for k := 0; k < variant-1; k++ {
@@ -313,6 +325,12 @@ func runPool(t *ty, fm int, seed uint64) {
 	for i := 0; i < n; i++ {
 		note("case pool/%s/%d", tag, i)
 		stats["values-"+fmName(fm)]++
+		if t.reachOpt {
+			pr, stl, zr := optCounts(st[i])
+			stats["optional-present"] += pr
+			stats["optional-absent-stale"] += stl
+			stats["optional-absent-zero"] += zr
+		}
 		stats[fmt.Sprintf("value-depth-%d", depthOf(st[i]))]++
 		if depthOf(st[i]) >= 2 || (len(st[i]) > 24 && depthOf(st[i]) >= 1) {
 			note("nontrivial %x", hash(t.name+st[i]))
@@ -353,6 +371,9 @@ func runPool(t *ty, fm int, seed uint64) {
 			}
 			if c[i][j] == 0 {
 				stats["cmp-zero-pairs"]++
+				if st[i] != st[j] {
+					stats["cmp-zero-pairs-different-hidden-state"]++
+				}
 				if da[i] != da[j] {
 					propFail(sigFloat(fm, t, "cmp-"+t.name+"-zero-different-data", st[i], st[j]),
 						"Cmp%s(a,b)=0 but the data differs: a=%s b=%s", t.name, da[i], da[j])
@@ -371,7 +392,7 @@ func runPool(t *ty, fm int, seed uint64) {
 				}
 				propFail(sig, "%s.IsEqual=%v but same data=%v: a=%s b=%s", t.name, e[i][j], da[i] == da[j], da[i], da[j])
 			}
-			// IsEqual => Cmp == 0 (fails only through stored values of absent optional fields)
+			// IsEqual => Cmp == 0 (failed through stored values of absent optional fields until 82431a4)
 			if e[i][j] && c[i][j] != 0 {
 				sig := "cmp-" + t.name + "-nonzero-for-equal"
 				if da[i] == da[j] && st[i] != st[j] {
@@ -522,6 +543,216 @@ func independence(pc *poolCtx, op string, src, cp reflect.Value, mr *rng.R) {
 			return
 		}
 	}
+}
+
+// ---------------------------------------------------------------- optional fields
+
+// Pairs (a, b) of one type with the same data and different hidden state, for every presence
+// pattern of the optional fields: all present / all absent (b: Set(v)+Unset, a: Unset) / mixed, at
+// the top level (HistogramValue, ExpHistogramValue) and nested in a oneof (PointValue, Point).
+// IsEqual(a,b) must hold and Cmp(a,b) = Cmp(b,a) = 0 (cmp-stale-optional), a clone must keep the
+// presence of every field (clone-loses-optional-presence), be IsEqual and compare 0.
+func optionalSection() {
+	r := rng.FromEnv(906)
+	rounds := 6
+	if thorough {
+		rounds = 80
+	}
+	for _, name := range []string{"HistogramValue", "ExpHistogramValue", "PointValue", "Point"} {
+		t := types[name]
+		pc := &poolCtx{t: t, fm: fPlain, cfg: &genCfg{fm: fPlain, maxDepth: 2, maxLen: 3}}
+		for round := 0; round < rounds; round++ {
+			note("case optional/%s/%d", name, round)
+			seed := r.U64()
+			mk := func() reflect.Value {
+				p := newObj(t)
+				fill(p, t, rng.New(seed), pc.cfg, 0)
+				return p
+			}
+			a, b := mk(), mk()
+			// the pair of structs with optional fields: a, b themselves or the histogram alternative
+			// of the PointValue oneof (selected here: fill picks it only now and then)
+			ha, hb, ht := a, b, t
+			if name == "PointValue" || name == "Point" {
+				oa, ob, ot := a, b, t
+				if name == "Point" {
+					oa, ob, ot = call(a, "Value")[0], call(b, "Value")[0], types["PointValue"]
+				}
+				k := uint64(3 + round%2)
+				for _, p := range []reflect.Value{oa, ob} {
+					st := meth(p, "SetType")
+					st.Call([]reflect.Value{reflect.ValueOf(k).Convert(st.Type().In(0))})
+				}
+				f := ot.fields[k-1]
+				ha, hb, ht = call(oa, f.name)[0], call(ob, f.name)[0], f.t
+				fs := r.U64()
+				fill(ha, ht, rng.New(fs), pc.cfg, 2)
+				fill(hb, ht, rng.New(fs), pc.cfg, 2)
+			}
+			forcePresence(ha, hb, ht, r, round%3)
+			stats["restaled-fields"] += restale(b, t, r, pc.cfg)
+			sa, sb, da, db := stateOf(a, t), stateOf(b, t), dataOf(a, t), dataOf(b, t)
+			note("nontrivial %x", hash("optional"+sa+sb))
+			if samples < 12 && round == 1 && name == "HistogramValue" {
+				samples++
+				note("sample optional pair a=%s b=%s", sa, sb)
+			}
+			if da != db {
+				propFail("harness-optional-pair-differs", "optional pair built with different data: a=%s b=%s", da, db)
+				continue
+			}
+			if sa != sb {
+				stats["optional-pairs-different-hidden-state"]++
+			}
+			stats["optional-pairs"]++
+			for _, pr := range [][2]int{{0, 1}, {1, 0}} {
+				x, y := []reflect.Value{a, b}[pr[0]], []reflect.Value{a, b}[pr[1]]
+				sx, sy := []string{sa, sb}[pr[0]], []string{sa, sb}[pr[1]]
+				e, res := isEqualObj(x, y)
+				if res.panicked {
+					propFail("panic-isequal-"+name, "%s.IsEqual panicked: %s a=%s b=%s", name, res.msg, sx, sy)
+					continue
+				}
+				emit("eq "+sx+" "+sy, fmt.Sprint(e))
+				if !e {
+					propFail("isequal-"+name+"-mismatch", "%s.IsEqual=false for the same data: a=%s b=%s", name, sx, sy)
+				}
+				c, res := cmpObj(t, x, y)
+				if res.panicked {
+					propFail("panic-cmp-"+name, "Cmp%s panicked: %s a=%s b=%s", name, res.msg, sx, sy)
+					continue
+				}
+				emit("cmp "+sx+" "+sy, fmt.Sprint(c))
+				if c != 0 {
+					sig := "cmp-" + name + "-nonzero-for-equal"
+					if sx != sy {
+						sig = "cmp-stale-optional"
+					}
+					propFail(sig, "%s: same data but Cmp=%d: a=%s b=%s", name, c, sx, sy)
+				}
+			}
+			if hasMethod(t, "Clone") {
+				for i, src := range []reflect.Value{a, b} {
+					sst, sda := []string{sa, sb}[i], []string{da, db}[i]
+					cl, res := cloneObj(t, src)
+					if res.panicked {
+						propFail("panic-clone-"+name, "%s.Clone panicked: %s src=%s", name, res.msg, sst)
+						continue
+					}
+					stats["clones"]++
+					cst, cda := stateOf(cl, t), dataOf(cl, t)
+					emit("clone "+sst, cst)
+					verifyEqualCopy(pc, "clone", src, sst, sda, cl, cst, cda)
+				}
+			}
+		}
+	}
+}
+
+// forcePresence drives the top-level optional fields of two equal structs a, b into one pattern:
+// 0 = all present (same value), 1 = all absent (b with a stale stored value), 2 = random per field.
+func forcePresence(a, b reflect.Value, t *ty, r *rng.R, mode int) {
+	if t.kind != kStruct {
+		return
+	}
+	for _, f := range t.fields {
+		if !f.opt || !f.t.prim() {
+			continue
+		}
+		m := mode
+		if m == 2 {
+			m = r.Intn(2)
+		}
+		if m == 0 {
+			l := genLeaf(r, f.t.kind, fPlain)
+			for _, p := range []reflect.Value{a, b} {
+				s := meth(p, "Set"+f.name)
+				s.Call([]reflect.Value{l.arg(s.Type().In(0))})
+			}
+			continue
+		}
+		call(a, "Unset"+f.name)
+		call(b, "Unset"+f.name) // restale stores another value
+	}
+}
+
+// restale changes the hidden state only: every absent optional primitive field reachable through
+// mutable getters gets Set(v) with v different from the stored value, then Unset. Returns the
+// number of fields treated. Dictionary structs (read-only getters, no optional fields) are skipped.
+func restale(p reflect.Value, t *ty, r *rng.R, c *genCfg) int {
+	n := 0
+	switch t.kind {
+	case kStruct:
+		for _, f := range t.fields {
+			switch {
+			case f.t.prim():
+				if !f.opt || call(p, "Has"+f.name)[0].Bool() {
+					continue
+				}
+				cur := leafOf(f.t.kind, call(p, f.name)[0]).canon()
+				var l leaf
+				for {
+					l = genLeaf(r, f.t.kind, c.fm)
+					if l.canon() != cur {
+						break
+					}
+				}
+				s := meth(p, "Set"+f.name)
+				s.Call([]reflect.Value{l.arg(s.Type().In(0))})
+				call(p, "Unset"+f.name)
+				n++
+			case f.t.dict:
+			default:
+				if f.t.reachOpt {
+					n += restale(call(p, f.name)[0], f.t, r, c)
+				}
+			}
+		}
+	case kOneof:
+		k := int(call(p, "Type")[0].Uint())
+		if k != 0 && !t.fields[k-1].t.prim() && t.fields[k-1].t.reachOpt {
+			n += restale(call(p, t.fields[k-1].name)[0], t.fields[k-1].t, r, c)
+		}
+	case kArr:
+		if !t.elem.prim() && t.elem.reachOpt {
+			for i := 0; i < int(call(p, "Len")[0].Int()); i++ {
+				n += restale(call(p, "At", reflect.ValueOf(i))[0], t.elem, r, c)
+			}
+		}
+	case kMap:
+		if !t.val.prim() && t.val.reachOpt {
+			for i := 0; i < int(call(p, "Len")[0].Int()); i++ {
+				n += restale(call(p, "Value", reflect.ValueOf(i))[0], t.val, r, c)
+			}
+		}
+	}
+	return n
+}
+
+// optCounts counts in a state dump the optional fields that are present, absent with a non-zero
+// stored primitive (stale) and absent with the zero value.
+func optCounts(st string) (present, stale, zero int) {
+	for i := 0; i+1 < len(st); i++ {
+		if i == 0 || (st[i-1] != '(' && st[i-1] != ',') {
+			continue
+		}
+		switch st[i] {
+		case '+':
+			present++
+		case '-':
+			j := i + 1
+			for j < len(st) && st[j] != ',' && st[j] != ')' {
+				j++
+			}
+			switch st[i+1 : j] {
+			case "f0", "u0", "i0", "b0", "s", "y":
+				zero++
+			default:
+				stale++
+			}
+		}
+	}
+	return
 }
 
 // ---------------------------------------------------------------- frozen values
@@ -845,6 +1076,7 @@ func main() {
 		}
 		nilSection()
 		directedSection()
+		optionalSection()
 	}
 	if all || sections["frozen"] {
 		frozenSection()
